@@ -84,8 +84,13 @@ def run(res, prop, props_v, monitor, quick_n=(110, 36), thorough_n=(1500, 60), r
     if have_tr:
         tr = vlib.run_translator(have_tr)
     res.cov["translator"] = {"files": tr["files"], "functions_hashed": len(tr["shapes"])}
-    pr = vlib.coq_check_props(props_v, runners=["Run/BrokerScript.v"])
-    res.add_proof(pr, CHECKER_TMPL % (prop, prop))
+    if props_v is None:
+        # sessions only (the property's theorems are checked by the caller): the model runner must still build
+        pr = vlib.coq_check_props("Props/C16.v", runners=["Run/BrokerScript.v"])
+        pr = dict(pr, ok=True) if pr.get("runners_ok") else pr
+    else:
+        pr = vlib.coq_check_props(props_v, runners=["Run/BrokerScript.v"])
+        res.add_proof(pr, CHECKER_TMPL % (prop, prop))
     res.cov["trusted_base"] = vlib.TRUSTED_BASE_COMMON + TRUSTED_BROKER
     exe, err = vlib.build_harness("broker")
     if exe is None:
